@@ -285,6 +285,11 @@ def call_arg(iter, fn, k, name):
     raise DeductiveOnly('call_arg')
 
 
+def call_self_after(iter, fn, k):
+    """The receiver (`self`) as the k-th of those calls left it."""
+    raise DeductiveOnly('call_self_after')
+
+
 def last_call_raised(iter, fn):
     """The most recent of those calls did not return (it raised)."""
     raise DeductiveOnly('last_call_raised')
